@@ -1,6 +1,8 @@
 // c02: runs whole programs on the real interpreter, in-process, one fresh VM per program.
 // stdin: one JSON case per line {"src": "<?php ..."}; stdout: one JSON observation per line
 // {"out": "...", "outcome": "ok"|"throw"|"parse"|"panic"|"control"|"timeout", "detail": "..."}.
+// Every observation line starts with the marker "@@R@@ " so that anything the interpreter writes to
+// the real stdout behind data.WriteOutput's back cannot be mistaken for (or corrupt) a result.
 // A program that does not finish within the per-case budget is reported as "timeout" and the
 // process exits (the goroutine cannot be killed); the driver restarts the engine after it.
 package main
@@ -25,14 +27,17 @@ type Obs struct {
 }
 
 func main() {
-	enc := json.NewEncoder(os.Stdout)
+	emit := func(o Obs) {
+		b, _ := json.Marshal(o)
+		os.Stdout.WriteString("\n@@R@@ " + string(b) + "\n")
+	}
 	vrun.Lines(func(line string) {
 		if line == "" {
 			return
 		}
 		var c Case
 		if err := json.Unmarshal([]byte(line), &c); err != nil {
-			enc.Encode(Obs{Outcome: "bad-case", Detail: err.Error()})
+			emit(Obs{Outcome: "bad-case", Detail: err.Error()})
 			return
 		}
 		done := make(chan vrun.Result, 1)
@@ -43,9 +48,9 @@ func main() {
 			if len(d) > 300 {
 				d = d[:300]
 			}
-			enc.Encode(Obs{Out: r.Out, Outcome: r.Outcome, Detail: d})
+			emit(Obs{Out: r.Out, Outcome: r.Outcome, Detail: d})
 		case <-time.After(10 * time.Second):
-			enc.Encode(Obs{Outcome: "timeout"})
+			emit(Obs{Outcome: "timeout"})
 			fmt.Fprintln(os.Stderr, "c02: case timed out, exiting")
 			os.Exit(3)
 		}
